@@ -123,6 +123,8 @@ class StateVectorEvolution(MatrixData, BasisManaged):
         else:
             S1 = inv
 
+        # the values are written back into the storage
+        self._data = self._storage_for_transform(self._data, SS)
         for nt in range(self.TimeAxis.length):
             self._data[nt,:] = numpy.dot(S1,self._data[nt,:])
 
